@@ -161,6 +161,8 @@ def flatten_positional(desc):
             leaves.append(("elems", d[1][1]))
         elif isinstance(d, tuple) and d and d[0] == "elems" and not hasattr(d[1], "t") and not isinstance(d[1], tuple):
             leaves.append(d)
+        elif hasattr(d, "t"):
+            leaves.append(("elems", d))     # a slice / collection used directly as the zipped iterator
         else:
             leaves.append(d)
     return leaves, enum
